@@ -1,4 +1,4 @@
 SPECIFICATION Spec
 ACTION_CONSTRAINT EmitEdge
-INVARIANT Inv Monotone SignalsAgree StructInv CrossInv EmptyIsUnset HugeInv PathInv
+INVARIANT Inv Monotone SignalsAgree StructInv CrossInv EmptyIsUnset HugeInv PathInv UnparsableIsUnset
 CHECK_DEADLOCK FALSE
